@@ -94,7 +94,48 @@ type Opts struct {
 	Overlay map[string][]byte // absolute file name -> contents (in-memory mutants)
 	Dir     string            // overrides RepoDir()
 	Extra   []string          // additional package patterns (positive-control packages)
+
+	NoControls bool // do not overlay the positive-control files
 }
+
+// ControlMarker is the substring of file names of positive-control files.
+const ControlMarker = "zz_voicheck_control"
+
+// controlOverlay reads checker/controls/*.go.txt: files added in memory to
+// the analysed repository so that zero-instance rules fire on every run.
+func controlOverlay(repo string) (map[string][]byte, error) {
+	dir := os.Getenv("VOI_CONTROLS")
+	if dir == "" {
+		dir = "/verif/checker/controls"
+	}
+	ents, err := os.ReadDir(dir)
+	if err != nil {
+		return nil, fmt.Errorf("positive controls: %v", err)
+	}
+	out := map[string][]byte{}
+	for _, e := range ents {
+		if !strings.HasSuffix(e.Name(), ".go.txt") {
+			continue
+		}
+		b, err := os.ReadFile(dir + "/" + e.Name())
+		if err != nil {
+			return nil, err
+		}
+		first := strings.SplitN(string(b), "\n", 2)[0]
+		const pfx = "//voicheck:target "
+		if !strings.HasPrefix(first, pfx) || !strings.Contains(first, ControlMarker) {
+			return nil, fmt.Errorf("positive control %s: first line must be %q<path containing %s>", e.Name(), pfx, ControlMarker)
+		}
+		out[repo+"/"+strings.TrimSpace(strings.TrimPrefix(first, pfx))] = b
+	}
+	if len(out) == 0 {
+		return nil, fmt.Errorf("positive controls: no control files in %s", dir)
+	}
+	return out, nil
+}
+
+// IsControlPos reports whether a formatted position lies in a control file.
+func IsControlPos(pos string) bool { return strings.Contains(pos, ControlMarker) }
 
 // Load loads one configuration.  It fails on any type error, on a wrong
 // package count, and on go/packages errors.
@@ -110,6 +151,18 @@ func Load(cfgID string, o Opts) (*Program, error) {
 	env := append(os.Environ(),
 		"GOARCH="+cfg.GOARCH, "GOOS=linux", "CGO_ENABLED=0",
 		"GOFLAGS=-mod=mod", "GOPROXY=off", "GOSUMDB=off", "GOTOOLCHAIN=local", "GOWORK=off")
+	if !o.NoControls {
+		ov, err := controlOverlay(dir)
+		if err != nil {
+			return nil, err
+		}
+		if o.Overlay == nil {
+			o.Overlay = map[string][]byte{}
+		}
+		for k, v := range ov {
+			o.Overlay[k] = v
+		}
+	}
 	fset := token.NewFileSet()
 	pc := &packages.Config{
 		Mode:    packages.LoadAllSyntax,
